@@ -1035,9 +1035,10 @@ func (s *v4Server) handleDecline(req, resp *dhcpv4.DHCPv4) (err error) {
 	newLease.Hostname = oldLease.Hostname
 	newLease.Expiry = time.Now().Add(s.conf.leaseTime)
 
-	err = s.addLease(newLease)
-	if err != nil {
-		return fmt.Errorf("adding new lease for %s: %w", mac, err)
+	// The lease itself has already been added by allocateLease, so only index
+	// its hostname.
+	if newLease.Hostname != "" {
+		s.hostsIndex[newLease.Hostname] = newLease
 	}
 
 	log.Info("dhcpv4: changed IP from %s to %s for %s", reqIP, newLease.IP, mac)
